@@ -123,14 +123,14 @@ func addI(x, y sival) sival { return sival{addB(x.lo, y.lo), addB(x.hi, y.hi), x
 func negI(x sival) sival    { return sival{negB(x.hi), negB(x.lo), x.unk} }
 func subI(x, y sival) sival { return addI(x, negI(y)) }
 func constI(k int64) sival  { return sival{lo: fin(0, k), hi: fin(0, k)} }
-func nonNeg(x sival) bool     { return leq(fin(0, 0), x.lo) }
+func nonNeg(x sival) bool   { return leq(fin(0, 0), x.lo) }
 
 type rangeEngine struct {
 	w     *World
 	ke    *KindEngine
 	f     *ssa.Function
 	busy  map[ssa.Value]bool
-	zoom  Kind // which zoom kind defines n
+	zoom  Kind                // which zoom kind defines n
 	bind  map[ssa.Value]sival // parameter bindings (interprocedural)
 	depth int
 }
